@@ -4,7 +4,9 @@ import RsslVerif.Gen.GlobalState
 import RsslVerif.Gen.Reserved
 import RsslVerif.Model.HashOrder
 import RsslVerif.Model.History
+import RsslVerif.Model.MemoDfs
 import RsslVerif.Lemmas.EnumRange
+import RsslVerif.Thm.C02
 /-!
 # C07 — compilation is deterministic
 
@@ -477,6 +479,117 @@ example : (match endEnum 5 (fun _ => none)
     | .error _ => false) = true := by decide
 
 end EndEnum
+
+/-! ## The usage fixpoint on CYCLIC tables (gap round 5: seeded mutant C07-6)
+
+`GlobalUsageAnalysis::recurse` walks `self.0.keys()` (hash order) and, per key, its `required` set (hash order).  The
+C02 model takes both orders as explicit lists; `C02.closure_order_independent` needs `WF` only (every mentioned symbol
+has an entry, sets duplicate free) - NO acyclicity.  This section makes that explicit: the statement for every table,
+a table with a call cycle that satisfies the hypotheses, the tie of the loop's text, and the seeded single-pass
+memoising DFS proved order DEPENDENT on a table with a 2-cycle. -/
+section UsageCycles
+open RsslVerif.Model.Usage RsslVerif.Spec.Usage RsslVerif.Lemmas.Usage RsslVerif.Model.MemoDfs
+
+/-- tie: the text of `recurse` in the tree under check is the sweep-until-unmodified loop the C02 model transcribes
+    (keys snapshot, `loop { modified = false; for key in &keys {..} if !modified { break } }`, start from the current
+    set, union of the members' sets, store when grown).  A single-pass / memoising / recursive rewrite fails here. -/
+theorem usage_recurse_shape_as_modelled :
+    RsslVerif.Gen.UsageTables.recurseShape = ⟨true, true, true, true, true⟩ := by decide
+
+/-- **The usage fixpoint is total and order independent on EVERY well-formed table, cyclic or not**: for any two
+    iteration orders of the key set the loop ends without a panic and both results hold the same sets.
+    (`C02.recurse_terminates` + `C02.closure_order_independent`; the only hypothesis on the table is `WF`.) -/
+theorem usage_fixpoint_total_and_order_independent {t₀ : Table} (hwf : WF t₀) {keys₁ keys₂ : List Sym}
+    (hk₁ : ∀ k, k ∈ keys₁ ↔ k ∈ keysOf t₀) (hk₂ : ∀ k, k ∈ keys₂ ↔ k ∈ keysOf t₀) :
+    ∃ t₁ t₂, recurse keys₁ t₀ = .ok (some t₁) ∧ recurse keys₂ t₀ = .ok (some t₂) ∧
+      ∀ f g, g ∈ val t₁ f ↔ g ∈ val t₂ f := by
+  obtain ⟨t₁, h₁⟩ := RsslVerif.Thm.C02.recurse_terminates hwf (keys := keys₁) (fun k hk => (hk₁ k).1 hk)
+  obtain ⟨t₂, h₂⟩ := RsslVerif.Thm.C02.recurse_terminates hwf (keys := keys₂) (fun k hk => (hk₂ k).1 hk)
+  exact ⟨t₁, t₂, h₁, h₂, fun f g => RsslVerif.Thm.C02.closure_order_independent hwf hk₁ hk₂ h₁ h₂ f g⟩
+
+/-- `walk_a` (fn 0) calls `walk_b` (fn 1) and reads global 0; `walk_b` calls `walk_a` and reads global 1 -/
+def cycle2 : Table :=
+  [(.fn 0, [.fn 1, .glob 0]), (.fn 1, [.fn 0, .glob 1]), (.glob 0, []), (.glob 1, [])]
+
+/-- Non-vacuity of the two theorems above ON A CALL CYCLE: the 2-cycle table is well formed, `walk_a` and `walk_b`
+    mention each other, every two key orders give the same sets, and (concretely, two opposite orders) both members
+    end with both globals - the global of the other member is reached only through the cycle. -/
+theorem usage_fixpoint_order_independent_on_cycle :
+    WF cycle2 ∧ Mentions cycle2 (.fn 0) (.fn 1) ∧ Mentions cycle2 (.fn 1) (.fn 0) ∧
+    (∀ keys₁ keys₂ : List Sym, (∀ k, k ∈ keys₁ ↔ k ∈ keysOf cycle2) → (∀ k, k ∈ keys₂ ↔ k ∈ keysOf cycle2) →
+      ∃ t₁ t₂, recurse keys₁ cycle2 = .ok (some t₁) ∧ recurse keys₂ cycle2 = .ok (some t₂) ∧
+        ∀ f g, g ∈ val t₁ f ↔ g ∈ val t₂ f) ∧
+    (∃ t₁ t₂, recurse [.fn 0, .fn 1, .glob 0, .glob 1] cycle2 = .ok (some t₁) ∧
+      recurse [.glob 1, .glob 0, .fn 1, .fn 0] cycle2 = .ok (some t₂) ∧
+      Sym.glob 1 ∈ val t₁ (.fn 0) ∧ Sym.glob 0 ∈ val t₁ (.fn 1) ∧
+      Sym.glob 1 ∈ val t₂ (.fn 0) ∧ Sym.glob 0 ∈ val t₂ (.fn 1)) := by
+  have hwf : WF cycle2 := wf_of_check (by decide)
+  have m01 : Mentions cycle2 (.fn 0) (.fn 1) := by unfold Mentions; decide
+  have m10 : Mentions cycle2 (.fn 1) (.fn 0) := by unfold Mentions; decide
+  refine ⟨hwf, m01, m10, fun keys₁ keys₂ h₁ h₂ => usage_fixpoint_total_and_order_independent hwf h₁ h₂, ?_⟩
+  have hk₁ : ∀ k, k ∈ ([.fn 0, .fn 1, .glob 0, .glob 1] : List Sym) ↔ k ∈ keysOf cycle2 :=
+    fun k => (show List.Perm _ (keysOf cycle2) by decide).mem_iff
+  have hk₂ : ∀ k, k ∈ ([.glob 1, .glob 0, .fn 1, .fn 0] : List Sym) ↔ k ∈ keysOf cycle2 :=
+    fun k => (show List.Perm _ (keysOf cycle2) by decide).mem_iff
+  obtain ⟨t₁, h₁⟩ := RsslVerif.Thm.C02.recurse_terminates hwf (fun k hk => (hk₁ k).1 hk)
+  obtain ⟨t₂, h₂⟩ := RsslVerif.Thm.C02.recurse_terminates hwf (fun k hk => (hk₂ k).1 hk)
+  have reach01 : Reach (Mentions cycle2) (.fn 0) (.fn 1) := Reach.single m01
+  have reach10 : Reach (Mentions cycle2) (.fn 1) (.fn 0) := Reach.single m10
+  refine ⟨t₁, t₂, h₁, h₂, ?_, ?_, ?_, ?_⟩
+  · exact (RsslVerif.Thm.C02.close_is_reachability hwf hk₁ h₁ _ _).2 ⟨.fn 1, reach01, by decide⟩
+  · exact (RsslVerif.Thm.C02.close_is_reachability hwf hk₁ h₁ _ _).2 ⟨.fn 0, reach10, by decide⟩
+  · exact (RsslVerif.Thm.C02.close_is_reachability hwf hk₂ h₂ _ _).2 ⟨.fn 1, reach01, by decide⟩
+  · exact (RsslVerif.Thm.C02.close_is_reachability hwf hk₂ h₂ _ _).2 ⟨.fn 0, reach10, by decide⟩
+
+/-- the 2-cycle with one helper: `walk_a` (fn 0) calls `walk_b` (fn 1) and `help` (fn 2); `walk_b` calls `walk_a`
+    and reads global 1; `help` reads global 2 -/
+def cycle2Helper : Table :=
+  [(.fn 0, [.fn 1, .fn 2]), (.fn 1, [.fn 0, .glob 1]), (.fn 2, [.glob 2]), (.glob 1, []), (.glob 2, [])]
+
+/-- **The seeded variant C07-6 (single-pass memoising DFS, `Model/MemoDfs.lean`) is order dependent on a call
+    cycle** (negation with witness): on one well-formed table with a 2-cycle, started from `walk_a`, `walk_b` is
+    reached while `walk_a` is still being expanded and keeps `walk_a`'s partial set - global 2 (read by the helper of
+    `walk_a`) is missing from `walk_b`'s set; started from `walk_b` it is there.  The two key orders are permutations
+    of the same key set, and the real loop gives the same (complete) sets for both. -/
+theorem memo_dfs_order_dependent_on_cycle :
+    ∃ (t : Table) (keys₁ keys₂ : List Sym), WF t ∧ keys₁.Perm keys₂ ∧ (∀ k, k ∈ keys₁ ↔ k ∈ keysOf t) ∧
+      Mentions t (.fn 0) (.fn 1) ∧ Mentions t (.fn 1) (.fn 0) ∧
+      Sym.glob 2 ∉ val (memoDfs keys₁ t) (.fn 1) ∧ Sym.glob 2 ∈ val (memoDfs keys₂ t) (.fn 1) ∧
+      (∃ t₁ t₂, recurse keys₁ t = .ok (some t₁) ∧ recurse keys₂ t = .ok (some t₂) ∧
+        (∀ f g, g ∈ val t₁ f ↔ g ∈ val t₂ f) ∧ Sym.glob 2 ∈ val t₁ (.fn 1)) := by
+  have hwf : WF cycle2Helper := wf_of_check (by decide)
+  have hk₁ : ∀ k, k ∈ ([.fn 0, .fn 1, .fn 2, .glob 1, .glob 2] : List Sym) ↔ k ∈ keysOf cycle2Helper :=
+    fun k => (show List.Perm _ (keysOf cycle2Helper) by decide).mem_iff
+  have hk₂ : ∀ k, k ∈ ([.fn 1, .fn 0, .fn 2, .glob 1, .glob 2] : List Sym) ↔ k ∈ keysOf cycle2Helper :=
+    fun k => (show List.Perm _ (keysOf cycle2Helper) by decide).mem_iff
+  obtain ⟨t₁, t₂, h₁, h₂, heq⟩ := usage_fixpoint_total_and_order_independent hwf hk₁ hk₂
+  have m01 : Mentions cycle2Helper (.fn 0) (.fn 1) := by unfold Mentions; decide
+  have m10 : Mentions cycle2Helper (.fn 1) (.fn 0) := by unfold Mentions; decide
+  have m02 : Mentions cycle2Helper (.fn 0) (.fn 2) := by unfold Mentions; decide
+  refine ⟨cycle2Helper, [.fn 0, .fn 1, .fn 2, .glob 1, .glob 2], [.fn 1, .fn 0, .fn 2, .glob 1, .glob 2],
+    hwf, List.Perm.swap _ _ _, hk₁, m01, m10, by decide, by decide, t₁, t₂, h₁, h₂, heq, ?_⟩
+  exact (RsslVerif.Thm.C02.close_is_reachability hwf hk₁ h₁ _ _).2
+    ⟨.fn 2, Reach.tail (Reach.single m10) m02, by decide⟩
+
+/-- ... and on the iteration order of a `required` SET as well: the same table with `walk_a`'s set listed as
+    {help, walk_b} instead of {walk_b, help} (same keys, every set a permutation), same key order, and `walk_b` is
+    complete. -/
+theorem memo_dfs_set_order_dependent_on_cycle :
+    let keys : List Sym := [.fn 0, .fn 1, .fn 2, .glob 1, .glob 2]
+    let t' : Table := [(.fn 0, [.fn 2, .fn 1]), (.fn 1, [.fn 0, .glob 1]), (.fn 2, [.glob 2]), (.glob 1, []), (.glob 2, [])]
+    (keysOf t' = keysOf cycle2Helper ∧ ∀ p ∈ t'.zip cycle2Helper, p.1.2.Perm p.2.2) ∧
+    Sym.glob 2 ∉ val (memoDfs keys cycle2Helper) (.fn 1) ∧ Sym.glob 2 ∈ val (memoDfs keys t') (.fn 1) := by
+  decide
+
+/-! Non-vacuity of the negative model: on an ACYCLIC table the memoising DFS computes what the real loop computes
+    (it is the cycle that breaks it). -/
+example : (∀ f ∈ ([.fn 0, .fn 1, .glob 0] : List Sym),
+    val (memoDfs [.fn 0, .fn 1, .glob 0] [(.fn 0, [.fn 1]), (.fn 1, [.glob 0]), (.glob 0, [])]) f =
+    val (memoDfs [.glob 0, .fn 1, .fn 0] [(.fn 0, [.fn 1]), (.fn 1, [.glob 0]), (.glob 0, [])]) f) ∧
+    Sym.glob 0 ∈ val (memoDfs [.fn 0, .fn 1, .glob 0] [(.fn 0, [.fn 1]), (.fn 1, [.glob 0]), (.glob 0, [])]) (.fn 0) := by
+  decide
+
+end UsageCycles
 
 /-! Non-vacuity: a check-only loop with two failing elements that report the same constant. -/
 example : firstFailure (fun n : Nat => if n > 2 then some "duplicate" else none) [1, 5, 2, 7] =
